@@ -397,6 +397,24 @@ fn run_prod(input: &Value) -> Case {
     j["impl"] = Value::Array(outs.iter().map(jout).collect());
     j["names"] = json!(names.map.iter().map(|(k, v)| (v.to_string(), k.clone())).collect::<BTreeMap<String, String>>());
     let table_s = clist(table.iter().map(|(k, v)| format!("({}, {})", cbytes(k), copt(v.map(|c| c.to_string())))));
+    // reader position after each decode() that returned an event, whole stream in one reader
+    let steps: Option<Vec<usize>> = catch(AssertUnwindSafe(|| {
+        let mut cur = Cursor::new(&data[..]);
+        let mut steps = vec![];
+        if which == 0 {
+            let mut dec = TTYEventDecoder::new();
+            while dec.decode(&mut cur).expect("decode").is_some() {
+                steps.push(cur.position() as usize);
+            }
+        } else {
+            let mut dec = TTYCommandDecoder::new();
+            while dec.decode(&mut cur).expect("decode").is_some() {
+                steps.push(cur.position() as usize);
+            }
+        }
+        steps
+    }));
+    j["steps"] = json!(steps);
     let head = format!("Prod {} {} {}", which, cbytes(&data), table_s);
     let first = outs.first().cloned().flatten().unwrap_or_default();
     let has_item = first.iter().any(|t| matches!(t, ITok::It(..)));
@@ -404,8 +422,9 @@ fn run_prod(input: &Value) -> Case {
     let esc = data.contains(&27);
     // a cut strictly inside an escape sequence / multi-byte char: some chunk boundary falls inside a token span
     let multi = table.iter().any(|(k, _)| k.len() >= 2);
+    let steps_s = copt(steps.as_ref().map(|v| clist(v.iter().map(|n| cnat(*n)))));
     Case {
-        coq: cruns(&head, &parts, &outs),
+        coq: format!("({} {})", cruns(&head, &parts, &outs), steps_s),
         json: j,
         tags: vec![
             format!("prod.{}", which_name(which)),
